@@ -18,6 +18,7 @@ func init() {
 		Explanation: "(R1, decided on every path of propagateExecutabilityRecursive) the target's Executable bit is written only for File targets and only from (a) the source's bit on a path that established source≠nil ∧ source is a File ∧ digests of source and target are equal, (b) the ancestor's bit on a path that established ancestor≠nil ∧ File ∧ digest equal to the target's — and rule (a) failed, or (c) the source's bit where source and ancestor are both Files with equal digests — and rules (a) and (b) failed; the recursion pairs children by the target's names; " +
 			"(R2) PropagateExecutability works on a Deep copy of the target and returns that copy; " +
 			"(R3) the controller calls it only under portable permissions with exactly one side preserving executability: the source argument is the content of the snapshot whose PreservesExecutability was tested true, the target that of the snapshot tested false (and non-nil), the ancestor argument is the ancestor that is reconciled, and the result replaces the target content. " +
+			"(R4, the bit reaches the disk) every permission-setting call made while a staged file is put in place — same-device route, cross-device intermediate, in-place swap, helpers included — uses the mode chosen on the entry's Executable bit (default mode, made executable when set); " +
 			"Not decided: stability of bits across cycles and edit histories.",
 		Assumptions: []string{"bytes.Equal on digests means equal content"},
 		Run:         runC18,
@@ -25,6 +26,7 @@ func init() {
 }
 
 func runC18(c *eng.Ctx) {
+	c18AppliedMode(c)
 	fn := c.MustFunc("R1", corePkg, "propagateExecutabilityRecursive")
 	if fn == nil {
 		return
